@@ -81,7 +81,11 @@ Handled(n) == /\ n > handled /\ n <= injected /\ handled' = n
               /\ UNCHANGED <<open, reason, returned, teardowns, handler, injected>>
 
 \* the loop went on after every panic (all packets handled) or the connection is closing
-Quiet == (handled = injected \/ reason) /\ UNCHANGED hvars
+\* (a write or a handler switch in progress may be failing and closing it at this very moment)
+Quiet == /\ \/ handled = injected
+            \/ reason
+            \/ \E t \in DOMAIN open : open[t].op \in {"write", "switch"}
+         /\ UNCHANGED hvars
 
 \* once a closing call, a failed write or the read loop has returned, and everything came to
 \* rest, the teardown has happened (a write error closes the connection)
